@@ -218,6 +218,13 @@ pub fn apply(e: Edge, img: &Img, p: &Params) -> Result<Img, ConversionError> {
 
 /// build a float image of the given kind
 pub fn float_img(k: Kind, data: Vec<[f32; 3]>, w: usize, h: usize, t: TC, cp: CP) -> Img {
+    // hand the library a vector with spare capacity (callers may pass any Vec): code that looks at the
+    // allocation instead of the length reads uninitialised memory, which Miri reports
+    let data = {
+        let mut v = Vec::with_capacity(data.len() + 5);
+        v.extend(data);
+        v
+    };
     match k {
         Kind::Rgb => Img::Rgb(Rgb::new(data, w, h, t, cp).expect("len == w*h")),
         Kind::Lin => Img::Lin(LinearRgb::new(data, w, h).expect("len == w*h")),
